@@ -10,7 +10,7 @@ from hypothesis import strategies as st
 from parso import cache as pcache
 from parso.file_io import FileIO
 
-from ..common import scratch_dir, crash_signature, digest, first_tree_diff, grammar, short
+from ..common import aborted, parent_link_error, scratch_dir, crash_signature, digest, first_tree_diff, grammar, short
 from ..engine import Outcome, Prop
 
 FILES = ['a.py', 'b.py', 'sub/a.py', 'l.py']     # l.py is a symbolic link to a.py
@@ -37,6 +37,7 @@ _op = st.one_of(
     st.tuples(st.just('parse_inflight'), _F, _V, _D, st.sampled_from(MODES),
               st.integers(0, len(CONTENTS) - 1)),
     st.tuples(st.just('touch'), _F),
+    st.tuples(st.just('parse_aborted'), _F, _V, _D, st.sampled_from(MODES), st.integers(1, 400)),
     st.tuples(st.just('copy'), _F, _F),
     st.tuples(st.just('write_all'), st.integers(0, len(CONTENTS) - 1)),
     st.tuples(st.just('drop')),
@@ -185,6 +186,22 @@ def run_history(ops, allow_inflight=True):
                     dirty.discard(f)
                 if r.stdout != exp:
                     return ('stale-or-foreign-tree+in-restarted-process', 'step %d %r: got %s' % (step, op, short(r.stdout.decode('utf-8', 'replace'), 100))), info
+            elif kind == 'parse_aborted':
+                # a parse that is interrupted (exception at the n-th line executed in cache.py / grammar.py / diff.py: between the
+                # read and the save, inside the save, between an in-place update and its registration ...); the caller catches the
+                # exception and goes on - every LATER parse must still be right
+                f = w.files[op[1]]
+                g = grammar(VERS[op[2]])
+                mode = op[4]
+                kw = dict(cache=mode.startswith('cache'), diff_cache='diff' in mode, cache_path=w.dirs[op[3]])
+                try:
+                    if aborted(lambda: g.parse(path=f, **kw), op[5], files=('cache.py', 'grammar.py', 'diff.py', 'file_io.py')):
+                        info['aborted'] = info.get('aborted', 0) + 1
+                except Exception:
+                    pass
+                w.restamp()
+                if kw['cache'] or kw['diff_cache']:
+                    cached.add(f)
             elif kind in ('parse', 'parse_inflight'):
                 f = w.files[op[1]]
                 v = VERS[op[2]]
@@ -211,6 +228,10 @@ def run_history(ops, allow_inflight=True):
                 if kw['cache'] or kw['diff_cache']:
                     cached.add(f)
                 d1 = first_tree_diff(m, exp)
+                if d1 is None:
+                    pl = parent_link_error(m)
+                    if pl:
+                        return ('returned-tree-has-broken-parent-links', 'step %d %r: %s' % (step, op, pl)), info
                 if d1 is not None:
                     # a tree of the content written during this very call is also acceptable (a cache hit does not read at all,
                     # so "the content at read time" is then the current one)
@@ -260,7 +281,7 @@ class C16(Prop):
             'directories in a private temp root; operations {write file from a pool of 14 contents (mtime advances on an owned logical '
             'clock), copy the content of one file to another, write the same content to all files, touch, parse by path with cache / cache+diff_cache / no cache / diff_cache only, parse with a write in flight (FileIO '
             'subclass that overwrites the file right after parso read it), drop the in-memory cache (what a restart does), delete a cache '
-            'directory, force memory eviction}; one third of the histories are *pair histories* (two paths through the same grammar and cache directory: both parsed, one changed - often from identical contents -, both parsed again, random operations in between). All timestamps are kept on one logical clock: pickles written during a call are '
+            'directory, force memory eviction, a parse that is aborted by an exception at the n-th line executed in cache.py/grammar.py/diff.py/file_io.py (the caller goes on)}; one third of the histories are *pair histories* (two paths through the same grammar and cache directory: both parsed, one changed - often from identical contents -, both parsed again, random operations in between). All timestamps are kept on one logical clock: pickles written during a call are '
             're-stamped with the next tick. Oracle (dict-of-files model): every parse returns a tree equal (own comparator) to a fresh '
             'parse of the content the model says was on disk at read time. Non-trivial: history with a write after a cached parse of the '
             'same file followed by another parse of it. Distinct by operation sequence.')
@@ -285,6 +306,8 @@ class C16(Prop):
         kinds = {o[0] for o in ops}
         if info.get('restarts'):
             classes.append('real-restart')
+        if info.get('aborted'):
+            classes.append('parse-aborted-midway')
         for k in ('drop', 'rmdir', 'evict', 'touch', 'copy', 'write_all'):
             if k in kinds:
                 classes.append(k)
